@@ -5,6 +5,7 @@
 -/
 import FBV.Lemmas.LoopLemmas
 import FBV.Lemmas.StepReads
+import FBV.Spec.CallTrace
 namespace FBV.C12
 open FBV
 
@@ -102,5 +103,134 @@ theorem copy_once_from_spec (oc : Bool) (b : Buf) (resp : RdResp) (h : b.WInv) :
     unfold cofDest
     rw [List.take_append_of_le_length (by simp)]
     simp [List.take_take]
+
+/-! ### the full call discipline of one `read_frame` call (any deframer, any script) -/
+
+theorem traceAwait_head (k : AB → ARd → List RdCall) (b1 : AB) (r : ARd) :
+    ∃ y rest, traceAwait k b1 r = y :: rest ∧ y.q = b1.q ∧ y.d = b1.free := by
+  unfold traceAwait
+  rcases hrd : r.read b1.free with ⟨resp, r'⟩
+  cases resp with
+  | pending => exact ⟨_, _, rfl, rfl, rfl⟩
+  | err e => exact ⟨_, _, rfl, rfl, rfl⟩
+  | data c => exact ⟨_, _, rfl, rfl, rfl⟩
+
+theorem pollTrace_head (f : Deframer) (fuel : Nat) (b : AB) (r : ARd) (y : RdCall) (rest : List RdCall)
+    (h : pollTrace f fuel b r = y :: rest) : y.q = b.q := by
+  cases fuel with
+  | zero => simp [pollTrace] at h
+  | succ fuel =>
+    simp only [pollTrace] at h
+    cases hv : (if b.q = [] then (Except.ok none : Except Unit _) else f b.q) with
+    | error u => simp [hv] at h
+    | ok v =>
+      cases v with
+      | some x => simp [hv] at h
+      | none =>
+        simp only [hv] at h
+        by_cases hfree : b.shift.free = 0
+        · simp [hfree] at h
+        · simp only [hfree, if_false] at h
+          obtain ⟨y', rest', h1, h2, _⟩ := traceAwait_head (pollTrace f fuel) b.shift r
+          rw [h1] at h
+          cases h
+          simpa [AB.shift] using h2
+
+/-- the reader's log of one call is exactly the destination lengths of the trace -/
+theorem trace_log (f : Deframer) :
+    ∀ (fuel : Nat) (b : AB) (r : ARd),
+      (pollLoop f fuel b r).2.1.log = r.log ++ (pollTrace f fuel b r).map (·.d) := by
+  intro fuel
+  induction fuel with
+  | zero => intro b r; simp [pollLoop, pollTrace]
+  | succ fuel ih =>
+    intro b r
+    simp only [pollLoop, pollTrace]
+    cases hv : (if b.q = [] then (Except.ok none : Except Unit _) else f b.q) with
+    | error u => simp
+    | ok v =>
+      cases v with
+      | some x => obtain ⟨s, e, n⟩ := x; simp
+      | none =>
+        simp only
+        by_cases hfree : b.shift.free = 0
+        · simp [hfree]
+        · simp only [hfree, if_false, fromAwait, traceAwait]
+          have hlog : ∀ resp r', r.read b.shift.free = (resp, r') → r'.log = r.log ++ [b.shift.free] := by
+            intro resp r' h
+            unfold ARd.read at h
+            cases hr : r.acts with
+            | nil => simp [hr] at h; rw [← h.2]
+            | cons a as => cases a <;> simp [hr] at h <;> rw [← h.2]
+          rcases hrd : r.read b.shift.free with ⟨resp, r'⟩
+          have hl := hlog resp r' hrd
+          cases resp with
+          | pending => simp [hl]
+          | err e => simp [hl]
+          | data c =>
+            simp only
+            by_cases hc : c = []
+            · simp [hc, hl]
+            · simp only [hc, if_false]
+              rw [ih, hl]; simp
+
+/-- **C12, every clause about `read_frame`'s use of the reader**: in one call (blocking, or one poll of a
+    fresh async future), for ANY deframer — also a rejecting one — and ANY reader script, every reader call is made
+    only while the buffered bytes hold neither a complete frame nor rejected data, with a non-empty destination
+    that fits the free space; no call follows an empty read, an error or `Pending`; and each later call sees
+    exactly the earlier bytes plus what the reader reported -/
+theorem call_discipline (f : Deframer) :
+    ∀ (fuel : Nat) (b : AB) (r : ARd), b.Inv → Disciplined f b.size (pollTrace f fuel b r) := by
+  intro fuel
+  induction fuel with
+  | zero => intro b r _; simp [pollTrace, Disciplined]
+  | succ fuel ih =>
+    intro b r hinv
+    unfold AB.Inv at hinv
+    simp only [pollTrace]
+    cases hv : (if b.q = [] then (Except.ok none : Except Unit _) else f b.q) with
+    | error u => simp [Disciplined]
+    | ok v =>
+      cases v with
+      | some x => simp [Disciplined]
+      | none =>
+        simp only
+        by_cases hfree : b.shift.free = 0
+        · simp [hfree, Disciplined]
+        · simp only [hfree, if_false, traceAwait]
+          have hpos : 0 < b.shift.free := Nat.pos_of_ne_zero hfree
+          have hfr : b.shift.free = b.size - b.q.length := by simp [AB.free, AB.shift]
+          have hfit : b.q.length + b.shift.free ≤ b.size := by rw [hfr]; omega
+          have hparts := ard_read_parts r b.shift.free
+          rcases hrd : r.read b.shift.free with ⟨resp, r'⟩
+          rw [hrd] at hparts
+          cases resp with
+          | pending => exact ⟨hv, hpos, hfit, rfl, trivial⟩
+          | err e => exact ⟨hv, hpos, hfit, rfl, trivial⟩
+          | data c =>
+            simp only at hparts
+            obtain ⟨_, hcl, _, _⟩ := hparts
+            simp only
+            by_cases hc : c = []
+            · simp only [hc, if_true]
+              exact ⟨hv, hpos, hfit, ⟨by simp, trivial⟩, trivial⟩
+            · simp only [hc, if_false]
+              have hinv' : (b.shift.append c).Inv := by
+                simp only [AB.Inv, AB.append, AB.shift, List.length_append]; omega
+              have hrec := ih (b.shift.append c) r' hinv'
+              have hsz : (b.shift.append c).size = b.size := rfl
+              rw [hsz] at hrec
+              simp only [Disciplined]
+              refine ⟨hv, hpos, hfit, ⟨hcl, ?_⟩, hrec⟩
+              cases htr : pollTrace f fuel (b.shift.append c) r' with
+              | nil => trivial
+              | cons y rest =>
+                have := pollTrace_head f fuel _ _ _ _ htr
+                exact ⟨hc, by simpa [AB.append, AB.shift] using this⟩
+
+/-- non-vacuity: a call that needs three reader calls (short chunk, short chunk, then the terminator arrives) -/
+example : (pollTrace (fun q => if q.length < 4 then .ok none else .ok (some (0, 3, 4))) 10 ⟨8, 2, [0x61]⟩
+    ⟨[0x62, 0x63, 0x0a, 0x64], [.chunk 0, .chunk 0], []⟩).length = 3 := by
+  decide
 
 end FBV.C12
